@@ -171,3 +171,5 @@ package ws
 //@ initonly WebsocketConnection.dataProcessing in InitDataProcessing
 // gorilla/websocket allows one concurrent writer: every write on the socket is serialised by muxConWrite
 //@ guardedcall (*websocket.Conn).WriteMessage, (*websocket.Conn).SetWriteDeadline by WebsocketConnection.muxConWrite
+
+//@ fieldcover WebsocketConnection
